@@ -113,10 +113,13 @@ def execute(prog, inputs, crash):
         out.update(state=obs.get('state'), outputs=obs.get('outputs'), ctx=obs.get('ctx'), outcome=obs.get('outcome'),
                    obs_error=obs.get('error'))
         if isinstance(final, plumpy.WorkChain):
-            tr = final.ctx.__dict__.get('trace', []) if final.ctx is not None else []
-            out['ptrace'] = list(tr)
-            from harness import outline_gen as og
-            out['result_token'] = og.result_token(final.result()) if final.state == plumpy.ProcessState.FINISHED else 'err'
+            try:
+                tr = final.ctx.__dict__.get('trace', []) if final.ctx is not None else []
+                out['ptrace'] = list(tr)
+                from harness import outline_gen as og
+                out['result_token'] = og.result_token(final.result()) if final.state == plumpy.ProcessState.FINISHED else 'err'
+            except Exception as e:  # noqa  (e.g. a restored work chain without a context)
+                out['obs_error'] = out.get('obs_error') or type(e).__name__
     try:
         d.abandon()
     except Exception:
@@ -159,7 +162,10 @@ def run_program(job):
                                     detail=str(ref['error'])))
         return res
     for crash in subsets:
-        run = execute(prog, inputs, crash)
+        try:
+            run = execute(prog, inputs, crash)
+        except Exception as e:  # noqa  (the resumed process broke in a way the driver did not foresee: a failure, not a crash)
+            run = dict(error=f'run-raised:{type(e).__name__}: {e}', restores=0, trace=[], segments=[])
         res['runs'] += 1
         for sig, clause, detail in compare(ref, run):
             res['failures'].append(dict(signature=sig, clause=clause, case=dict(name=name, prog=prog, inputs=inputs, crash=list(crash)),
